@@ -328,6 +328,7 @@ theorem grants_change_only_by_permitted_update (s : State) (op : Op) :
     · rfl
     · exact (opResult_keeps fun s' h => setOrderExternalID_keeps h).1
   | commit m a => left; rfl
+  | settle m a b c => left; rfl
   | release m c as =>
     left; simp only [applyOp]; split
     · rfl
@@ -357,6 +358,7 @@ theorem applyOp_authority (s : State) (op : Op) : (applyOp s op).1.authority = s
     · rfl
     · exact (opResult_keeps fun s' h => setOrderExternalID_keeps h).2
   | commit m a => rfl
+  | settle m a b c => rfl
   | release m c as =>
     simp only [applyOp]; split
     · rfl
